@@ -4,6 +4,7 @@
 # (every one must exit 0), reverts. /repo must be clean.
 set -u
 HERE="$(cd "$(dirname "$0")" && pwd)"
+only="${1:-}"   # optional: only the controls whose name contains this
 if [ -n "$(git -C /repo status --porcelain --untracked-files=no)" ]; then
   echo "refusing: /repo has uncommitted changes"; exit 2
 fi
@@ -11,6 +12,7 @@ trap 'git -C /repo checkout -- . 2>/dev/null' EXIT
 bad=0; rows=()
 for patch in "$HERE"/controls/*/patch.diff; do
   name="controls/$(basename "$(dirname "$patch")")"
+  [ -n "$only" ] && [[ "$name" != *"$only" ]] && continue
   git -C /repo apply "$patch" 2>/dev/null || { echo "$name: patch does not apply"; bad=1; continue; }
   res=""
   for p in C20 C15 C19 C03; do
@@ -22,6 +24,17 @@ for patch in "$HERE"/controls/*/patch.diff; do
   echo "$name:$res"
   rows+=("{\"control\":\"$name\",\"exit_codes\":\"${res# }\"}")
 done
-printf '{"selftest":"specificity","results":[%s]}\n' "$(IFS=,; echo "${rows[*]}")" > "$HERE/evidence/selftest-specificity.json"
+# rows are merged into the evidence file by control name (a filtered run
+# replaces only its own rows)
+printf '[%s]\n' "$(IFS=,; echo "${rows[*]}")" | python3 -c '
+import json, sys
+new = json.load(sys.stdin); out = sys.argv[1]
+try: old = json.load(open(out))["results"] if sys.argv[2] else []
+except Exception: old = []
+names = {r["control"] for r in new}
+rows = [r for r in old if r["control"] not in names] + new
+rows.sort(key=lambda r: int(r["control"].split("/n")[1]))
+json.dump({"selftest": "specificity", "results": rows}, open(out, "w"), indent=0)
+' "$HERE/evidence/selftest-specificity.json" "$only"
 "$HERE/check" build >/dev/null 2>&1
 [ $bad -eq 0 ] && { echo "specificity selftest: PASS (no alarm on any control)"; exit 0; } || { echo "specificity selftest: FAIL"; exit 1; }
